@@ -78,7 +78,7 @@ def leaf_terms(cls, call):
                 for tup in itertools.product(KEYS5, repeat=n):
                     out.append(T.leaf(cls, call, *tup))
     elif kind == "varkw":
-        vals = [1, True, "x", [1]]
+        vals = [1, True, "x", [1], None]
         out.append(T.leaf(cls, call))
         for k in ("a", "b"):
             for v in vals:
